@@ -1,18 +1,34 @@
-(* Props/C04.v — Reader decodes every valid encoding of the layout.  (interim: invariance of the reader under
-   the physical string encoding; invariance under integer width / optional fields from Proofs/SimProofs.v is
-   added when that library is complete.  Chunking, compression and creation order are invisible above the h5py
-   API and only exercised by the correspondence run.) *)
-From NIR Require Import Model.Serial Proofs.SerialProofs.
+(* Props/C04.v — Reader decodes every valid encoding of the layout, including legacy files.
+   PARTIAL BY NATURE for chunking / compression / creation-order tracking: they are invisible above the h5py
+   API (law A5) and only exercised by the correspondence run. *)
+From NIR Require Import Model.Serial Proofs.SerialProofs Proofs.SimProofs.
 
-(* the decoded value of a string dataset does not depend on its physical encoding *)
-Theorem c04_string_encoding_irrelevant : forall e1 e2 s, read_dataset (H5Str e1 s) = read_dataset (H5Str e2 s).
-Proof. reflexivity. Qed.
+(* variable- or fixed-length strings, ASCII or UTF-8: nir.read does not depend on the physical string encoding *)
+Theorem c04_string_encoding_irrelevant : forall t t', h5_enc_sim t t' -> read t = read t'.
+Proof. exact read_enc. Qed.
 
-Theorem c04_string_array_encoding_irrelevant : forall e1 e2 rows,
-  read_dataset (H5Strs e1 rows) = read_dataset (H5Strs e2 rows).
-Proof. reflexivity. Qed.
+Theorem c04_version_encoding_irrelevant : forall t t', h5_enc_sim t t' -> read_version t = read_version t'.
+Proof. exact read_version_enc. Qed.
 
-(* edge endpoints are accepted as text whether they arrive as str or as bytes *)
+(* any integer width for shapes and hyper-parameters; tuples vs arrays; Python ints vs numpy scalars:
+   the constructors only look at numeric views.  `vsim` relates VInt z ~ numpy scalar z of any dtype,
+   integer tuples/lists ~ 1-d integer arrays of any dtype, 0-d arrays ~ numpy scalars. *)
+Theorem c04_constructors_respect_numeric_similarity : forall k fs fs',
+  fields_sim fs fs' -> side k fs fs' -> res_sim (post_init k fs) (post_init k fs').
+Proof. exact post_init_sim. Qed.
+
+Theorem c04_constructors_respect_numeric_similarity' : forall k args args',
+  fields_sim args args' ->
+  (forall fs fs', bind_args k args = Ok fs -> bind_args k args' = Ok fs' -> side k fs fs') ->
+  res_sim (construct k args) (construct k args').
+Proof. exact construct_sim. Qed.
+
+Theorem c04_views_blind_to_width_and_container :
+  forall a b, vsim a b -> num_view a = num_view b /\ seq_view a = seq_view b.
+Proof. intros a b H. split; [apply vsim_num_view|apply vsim_seq_view]; exact H. Qed.
+
+(* edge endpoints are accepted as text whether they arrive as str or as bytes; an empty edge dataset of any
+   dtype decodes to the empty edge list *)
 Theorem c04_edges_bytes_or_str : forall (es : list (string * string)),
   edge_rows (VList (map (fun e => VTuple [VBytes (fst e); VBytes (snd e)]) es)) = Ok es /\
   edge_rows (VList (map (fun e => VTuple [VStr (fst e); VStr (snd e)]) es)) = Ok es.
@@ -21,17 +37,27 @@ Proof.
     try reflexivity; rewrite IH; reflexivity.
 Qed.
 
-(* an empty edge dataset of any dtype decodes to the empty edge list *)
 Theorem c04_empty_edges : forall dt r tok i, edge_rows (VArr dt (0 :: r) tok i) = Ok [].
 Proof. reflexivity. Qed.
 
-(* re-writing a graph that was read yields a file that is read through the same refinement *)
+(* optional fields: the regenerated table supplies the defaults of the omissible fields *)
+Example c04_optional_fields_have_defaults :
+  (exists fs, bind_args KCubaLIF [("tau_syn", VNone); ("tau_mem", VNone); ("r", VNone); ("v_leak", VNone);
+                                  ("v_threshold", VNone)] = Ok fs /\ assoc "w_in" fs = Some (VFloat 4607182418800017408)
+                                  /\ assoc "metadata" fs = Some (VDict [])) /\
+  (exists fs, bind_args KFlatten [] = Ok fs /\ assoc "start_dim" fs = Some (VInt 1) /\ assoc "end_dim" fs = Some (VInt (-1))).
+Proof. split; eexists; (split; [vm_compute; reflexivity|split; reflexivity]). Qed.
+
+(* re-writing a graph that was read *)
 Theorem c04_rewrite : forall g t, write g = Ok t ->
   exists d', norm_entries (to_dict g) = Ok d' /\ read t = from_dict d' /\ read_version t = Ok nir_version.
 Proof. exact read_write_refines. Qed.
 
 Print Assumptions c04_string_encoding_irrelevant.
-Print Assumptions c04_string_array_encoding_irrelevant.
+Print Assumptions c04_version_encoding_irrelevant.
+Print Assumptions c04_constructors_respect_numeric_similarity.
+Print Assumptions c04_constructors_respect_numeric_similarity'.
+Print Assumptions c04_views_blind_to_width_and_container.
 Print Assumptions c04_edges_bytes_or_str.
 Print Assumptions c04_empty_edges.
 Print Assumptions c04_rewrite.
